@@ -9,7 +9,7 @@ from lib.core import ShardResult
 
 LEVEL = 'exploration'
 RULE = ('(a) every generated dialect program x layout (lib/luagen, same space as C08); (b) every quoted-string body of '
-        '<= N atoms (quick 2, thorough 3) over 47 atoms (plain chars, every escape form, raw control/high bytes, quotes) '
+        '<= N atoms (quick 2, thorough 3) over 49 atoms (plain chars, every escape form, raw control/high bytes, quotes) '
         'x both quote kinds; (c) every \\d, \\dd, \\ddd escape for 0-255 followed by {digit, letter, end}, every raw byte '
         '1-255 in string / comment / identifier position; (d) long brackets of level 0-3 over bodies with ], ]], ]=], '
         'newlines; (e) each with and without final newline, LF and CRLF, as one chunk and as per-line chunks; '
@@ -28,7 +28,7 @@ ATOMS = [
     (b'\\*', 'p8-1'), (b'\\#', 'p8-2'), (b'\\-', 'p8-3'), (b'\\|', 'p8-4'), (b'\\+', 'p8-5'), (b'\\^', 'p8-6'),
     (b'OTHERQ', 'other-quote'), (b'\x01', 'raw-01'), (b'\x07', 'raw-07'), (b'\x0e', 'raw-0e'), (b'\x0f', 'raw-0f'),
     (b'\x7f', 'raw-7f'), (b'\x80', 'raw-80'), (b'\xff', 'raw-ff'), (b'[', 'lbracket'), (b']', 'rbracket'),
-    (b'-', 'minus'), (b'\t', 'raw-tab'),
+    (b'-', 'minus'), (b'\t', 'raw-tab'), (b'\\z\n  ', 'esc-z-newline'), (b'\\z\r\n\t', 'esc-z-crlf'),
 ]
 
 
@@ -104,6 +104,12 @@ def string_source(atoms, q):
 def check_string(atoms, q, res):
     src = string_source(atoms, q)
     probs = check_source(src, res, 'string')
+    if not probs and b'\n' in src:
+        # the same literal arriving split at line ends (the .p8 path)
+        probs = check_source(src + b'\ny=1\n', res, 'string', chunked=True)
+        if probs:
+            report(src + b'\ny=1\n', probs, res, 'string', 'chunked:' + '+'.join(c for _, c in atoms))
+            return
     if probs:
         # minimise to the failing atom or adjacent pair for a stable, specific signature
         detail = None
@@ -260,6 +266,8 @@ def run_shard(item):
     elif kind == 'programs':
         from props import c08
         for src, meta in c08.programs_for_shard(item):
+            if item[2] == 'thorough' and meta['desc'] == 'dev1' and len(meta['prog'].toks) > 8:
+                continue        # the echo writer ignores the tree: one-gap layouts of long programs add nothing new
             for s2, ch in ((src, False), (src, True)) if b'\n' in src else ((src, False),):
                 probs = check_source(s2, res, 'programs', chunked=ch)
                 if probs and probs[0][0].startswith('raise-') and c08.has_qprint(meta['prog'].skeleton):
